@@ -146,6 +146,9 @@ class StmtMixin:
         raise Unsupported(f"attribute store on {obj!r}")
 
     def setitem(self, obj, idx, v, path):
+        h0 = self.hooks.get("setitem_pre")
+        if h0 is not None and h0(self, path, obj, idx, v) is True:
+            return
         if isinstance(obj, dict):
             if isinstance(idx, (SV, SInt, SBool)):
                 raise Unsupported("symbolic key store into concrete dict")
